@@ -48,8 +48,10 @@ TV_HEADER = ('From Coq Require Import Reals List ZArith QArith Qreals Bool Lra.\
              '  prof4_proj_l, prof4_proj_r, prof2_source, prof2_proj, prof5_source, prof5_proj, prof6_source,\n'
              '  prof6_proj, prof7_source, prof7_proj, gauss_func, gauss_abel, step_func, step_abel, step_mask_valid;\n'
              '  repeat match goal with\n'
-             '  | |- context [Rle_dec ?a ?b] => destruct (Rle_dec a b); try (exfalso; lra)\n'
-             '  | |- context [Rlt_dec ?a ?b] => destruct (Rlt_dec a b); try (exfalso; lra)\n'
+             '  | |- context [Rle_dec ?a ?b] => let H := fresh in destruct (Rle_dec a b) as [H|H];\n'
+             '      try (exfalso; first [ lra | apply (Rle_not_lt b a H); interval | apply H; interval ])\n'
+             '  | |- context [Rlt_dec ?a ?b] => let H := fresh in destruct (Rlt_dec a b) as [H|H];\n'
+             '      try (exfalso; first [ lra | apply (Rlt_not_le b a H); interval | apply H; interval ])\n'
              '  end; interval with (i_prec 80).\n')
 
 
